@@ -63,6 +63,89 @@ def observe(obj, name, via):
     return canon(getattr(sp, name)())
 
 
+def observe_reader(conv, key):
+    """read_dataset on a freshly generated dataset in the `conv` layout (deterministic in `key`)."""
+    import random
+
+    from . import c12
+    from wavespectra import read_dataset
+
+    rng = random.Random("C18r/" + "/".join(str(k) for k in key))
+    ds, _ = c12.BUILDERS[conv](rng, False)
+    try:
+        out = read_dataset(ds.copy(deep=True))
+    except Exception as e:
+        return f"EXC {type(e).__name__}: {str(e)[:160]}"
+    c = canon(out)
+    return c + [dict(name="<dims>", dims=sorted(map(str, out.dims)), vals=[], coords={}, attrs={})]
+
+
+class FreshServers:
+    """Pool of pristine processes: each has imported wavespectra and nothing else; every request is answered by a forked
+    child, so no request sees state left by another one (module-level caches, the C routine's static buffers, the
+    attribute table, reader constants)."""
+
+    def __init__(self, n):
+        env = dict(os.environ, VERIF_C18_SERVER="1")
+        self.procs = [subprocess.Popen([sys.executable, "-W", "ignore", "-m", "harness.checks.c18"], cwd=ROOT, env=env, text=True,
+                                       stdin=subprocess.PIPE, stdout=subprocess.PIPE, stderr=subprocess.DEVNULL) for _ in range(n)]
+
+    def map(self, payloads):
+        import threading
+
+        n = len(self.procs)
+        outs = [None] * n
+
+        def work(k):
+            lines = [json.dumps(p) for p in payloads[k::n]]
+            o, _ = self.procs[k].communicate("\n".join(lines) + "\n")
+            outs[k] = o.splitlines()
+
+        ts = [threading.Thread(target=work, args=(k,)) for k in range(n)]
+        [t.start() for t in ts]
+        [t.join() for t in ts]
+        res = [None] * len(payloads)
+        for k in range(n):
+            for j, line in enumerate(outs[k] or []):
+                idx = k + j * n
+                if idx < len(res):
+                    try:
+                        res[idx] = json.loads(line)
+                    except Exception:
+                        res[idx] = None
+        return res
+
+
+def serve():
+    import_ws()
+    import xarray  # noqa: F401
+    from . import c12  # noqa: F401
+
+    for line in sys.stdin:
+        line = line.strip()
+        if not line:
+            continue
+        sys.stdout.flush()
+        pid = os.fork()
+        if pid == 0:
+            try:
+                p = json.loads(line)
+                if "reader" in p:
+                    out = observe_reader(p["reader"], p["key"])
+                else:
+                    obj = build(np.array(p["freq"]), np.array(p["dirs"]), np.array(p["E"]), p["kind"])
+                    try:
+                        out = observe(obj, p["name"], p["via"])
+                    except Exception as e:
+                        out = f"EXC {type(e).__name__}: {e}"
+                sys.stdout.write(json.dumps(out) + "\n")
+            except BaseException as e:  # noqa
+                sys.stdout.write(json.dumps(f"SERVER-ERROR {type(e).__name__}: {e}") + "\n")
+            sys.stdout.flush()
+            os._exit(0)
+        os.waitpid(pid, 0)
+
+
 def canon(x):
     import xarray as xr
 
@@ -114,6 +197,7 @@ def make_history(args):
             return np.array([gen.gen_spectrum(rng, nf, nd, kind=rng.choice(["blobs", "noisy"]))[0] + 0.015625 for _ in range(nt)])
         return gen.gen_spectrum(rng, nf, nd, kind=rng.choice(["blobs", "noisy"]))[0] + 0.015625
     evers = [newE()]
+    rvers = []
     dvers = [dirs0]
     fvers = [freq]
     obj = build(freq, dirs0, evers[0], kind)
@@ -147,9 +231,16 @@ def make_history(args):
             results.append(None)
         elif r < 0.7:
             ops.append("ad")
-            mode = rng.choice(["shift", "halve", "reverse_labels"])
+            mode = rng.choice(["shift", "halve", "reverse_labels", "interior", "mirror"])
             d = dvers[-1]
-            if mode == "shift":
+            if mode == "interior":
+                # same number of bins, same first and last label, different labels in between
+                gaps = np.abs(np.diff(np.sort(d)))
+                nd_ = d.copy()
+                nd_[1:-1] = (d[1:-1] + 0.25 * float(gaps[gaps > 0].min())) % 360.0
+            elif mode == "mirror":
+                nd_ = (360.0 - d) % 360.0
+            elif mode == "shift":
                 nd_ = (d + 360.0 / nd * rng.randint(1, nd - 1) + 0.0) % 360.0
             elif mode == "halve":
                 nd_ = d * 0.5
@@ -186,7 +277,7 @@ def make_history(args):
             da = obj["efth"] if kind == "ds" else obj
             da.spec.crsd()
             results.append(None)
-        elif r < 0.94:
+        elif r < 0.92:
             ops.append("us")
             try:
                 obj.spec.stats(["nope"])
@@ -195,11 +286,19 @@ def make_history(args):
                 results.append(None)
             except Exception as e:
                 results.append(f"EXC {type(e).__name__}")
-        else:
+        elif r < 0.94:
             ops.append("rd")
             read_swan(str(REPO / "tests/sample_files/swanfile.spec"))
             results.append(None)
-    return dict(icase=icase, kind=kind, ops=ops, freq=freq, evers=evers, dvers=dvers, fvers=fvers, results=results)
+        else:
+            # an observed reader call on an in-memory dataset laid out in a native convention, with a random subset of the
+            # optional variables: its result is a function of that dataset alone
+            conv = rng.choice(["ww3", "ww3", "ncswan", "wwm"])
+            key = [seed, icase, len(rvers)]
+            rvers.append(dict(conv=conv, key=key))
+            ops.append(f"ro:{len(rvers) - 1}")
+            results.append(observe_reader(conv, key))
+    return dict(icase=icase, kind=kind, ops=ops, freq=freq, evers=evers, dvers=dvers, fvers=fvers, results=results, rvers=rvers)
 
 
 def run_check():
@@ -217,6 +316,7 @@ def run_check():
     resps = run_driver([f"history {len(h['ops'])} " + " ".join(h["ops"]) for h in hs])
     nobs = 0
     sub_jobs = []
+    fresh_jobs = []
     for h, resp in zip(hs, resps):
         toks = resp.split()
         case = dict(icase=h["icase"], kind=h["kind"], ops=h["ops"], freq=h["freq"].tolist(), n_efth_versions=len(h["evers"]), n_dir_versions=len(h["dvers"]))
@@ -226,6 +326,15 @@ def run_check():
         edits_before = False
         for i, (op, pred, res) in enumerate(zip(h["ops"], toks[1:], h["results"])):
             kindop = op.split(":")[0]
+            if kindop == "ro":
+                nobs += 1
+                v = int(op.split(":")[1])
+                ck.case((h["kind"], "ro", h["rvers"][v]["conv"], edits_before, tuple(o.split(":")[0] for o in h["ops"][:i])[-3:]), i > 0,
+                        sample=dict(ops=h["ops"][: i + 1], predicted=pred))
+                if pred != f"r{v}":
+                    ck.disagree("history", f"model response {pred} for reader observation {v}", dict(case, step=i))
+                fresh_jobs.append((dict(reader=h["rvers"][v]["conv"], key=h["rvers"][v]["key"]), res, "read_dataset", dict(case, step=i, reader=h["rvers"][v])))
+                continue
             if kindop in ("ee", "ad", "af", "pt", "al", "rd", "us"):
                 if kindop != "us" or res is None:
                     edits_before = edits_before or kindop in ("ee", "ad", "af", "pt", "al")
@@ -255,8 +364,26 @@ def run_check():
                 else:
                     ck.fail(name, f"step {i} ({op}) differs from the same call on a freshly constructed object with the same contents",
                             dict(case, step=i), "stale_result")
+            fresh_jobs.append((dict(freq=h["fvers"][fv].tolist(), dirs=h["dvers"][dv].tolist(), E=h["evers"][ev].tolist(), kind=h["kind"],
+                                    name=name, via=kindop), res, name, dict(case, step=i)))
             if ck.tier == "thorough" and len(sub_jobs) < 40 and edits_before:
                 sub_jobs.append((h, i, name, kindop, ev, dv, fv, res))
+    # every observation again in a pristine process (forked from a process that has only imported the library): state
+    # kept at module level or in the C extension cannot be seen by comparing two objects inside one process
+    srv = FreshServers(8)
+    outs = srv.map([j[0] for j in fresh_jobs])
+    for (payload, res, name, case), exp in zip(fresh_jobs, outs):
+        if exp is None or (isinstance(exp, str) and exp.startswith("SERVER-ERROR")):
+            ck.count("fresh_server_error")
+            continue
+        ck.count("pristine_process_observations")
+        if isinstance(res, str) or isinstance(exp, str):
+            if res != exp:
+                ck.fail(name, f"raised/returned differently from a pristine process: {str(res)[:120]} vs {str(exp)[:120]}", case, "stale_result")
+            continue
+        if not same(res, exp):
+            ck.fail(name, "result differs from the same call on the same contents in a pristine process (state carried between calls)",
+                    case, "stale_result")
     # thorough: repeat some observations in a fresh process
     for (h, i, name, kindop, ev, dv, fv, res) in sub_jobs:
         payload = dict(freq=h["fvers"][fv].tolist(), dirs=h["dvers"][dv].tolist(), E=h["evers"][ev].tolist(), kind=h["kind"], name=name, via=kindop)
@@ -282,6 +409,9 @@ def count(ops, k):
 
 
 if __name__ == "__main__":
+    if os.environ.get("VERIF_C18_SERVER"):
+        serve()
+        sys.exit(0)
     if os.environ.get("VERIF_C18_SUB"):
         p = json.loads(os.environ["VERIF_C18_SUB"])
         import_ws()
